@@ -126,7 +126,9 @@ fn determinism_case(cfg: &Config, tmp: &Path, idx: u64, r: &mut Rng, st: &mut St
             runs.push(("verify-strong".into(), args, true));
         }
         _ => {
-            let eo = ExtOpts { hostile_identifiers: r.chance(1, 2), ..Default::default() };
+            // many declared predicates, several of them missing from one side: collections whose
+            // iteration order reaches the output get more than one element
+            let eo = ExtOpts { hostile_identifiers: r.chance(1, 2), max_outputs: 4, skip_many_outputs: r.chance(1, 2), max_privates: 3, ..Default::default() };
             let (t, _) = gen_external(r, &eo);
             if let Either::Left(l) = &t.left {
                 std::fs::write(d.join("a.1.lp"), l).unwrap();
